@@ -3,29 +3,29 @@ import SignaloModel.Proofs.HampelProofs
 /-!
 # C18 — Hampel filter passes inliers, replaces gross outliers, and emits nothing else
 
-Property theorems for C18 (statements are printed by `#check`, axioms by `#check @Registry.hampel_registry
+The property theorems for C18: `#check` prints each statement, `#print axioms` its axioms;
+`bin/check C18` re-elaborates this file on every run and audits the axiom lists.
+-/
+open SignaloModel
+
+#check @Registry.hampel_registry
 #check @Registry.hampelOut_two_valued
 #check @Registry.hampelOut_first
 #check @Registry.hampelOut_inlier
 #check @Registry.hampelOut_outlier
-#print axioms`;
-`bin/check C18` re-elaborates this file on every run and audits the axiom lists).
--/
-open SignaloModel
-
 #check @Hampel.decide_two_valued
 #check @Hampel.decide_first
 #check @Hampel.decide_inlier
 #check @Hampel.decide_outlier
 #check @Hampel.decide_const_window
 
-#print axioms Hampel.decide_two_valued
-#print axioms Hampel.decide_first
-#print axioms Hampel.decide_inlier
-#print axioms Hampel.decide_outlier
-#print axioms Hampel.decide_const_window
 #print axioms Registry.hampel_registry
 #print axioms Registry.hampelOut_two_valued
 #print axioms Registry.hampelOut_first
 #print axioms Registry.hampelOut_inlier
 #print axioms Registry.hampelOut_outlier
+#print axioms Hampel.decide_two_valued
+#print axioms Hampel.decide_first
+#print axioms Hampel.decide_inlier
+#print axioms Hampel.decide_outlier
+#print axioms Hampel.decide_const_window
